@@ -486,7 +486,7 @@ func (sm *shardManagerImpl) RegisterShard(clientShardID history.ClusterShardID) 
 	sm.logger.Info("RegisterShard", tag.NewStringTag("shard", ClusterShardIDtoString(clientShardID)))
 	registeredAt := sm.addLocalShard(clientShardID)
 	vhook.At("sm.register.afterAdd", "node", sm.GetNodeName(), "shard", clientShardID, "at", registeredAt)
-	sm.broadcastShardChange("register", clientShardID)
+	sm.broadcastShardChange("register", clientShardID, registeredAt)
 
 	// Trigger memberlist metadata update to propagate NodeMeta to other nodes
 	// Run asynchronously to avoid blocking callers
@@ -523,7 +523,7 @@ func (sm *shardManagerImpl) UnregisterShard(clientShardID history.ClusterShardID
 		sm.mutex.Unlock()
 		vhook.At("sm.unregister.window", "node", sm.GetNodeName(), "shard", clientShardID, "at", expectedRegisteredAt)
 
-		sm.broadcastShardChange("unregister", clientShardID)
+		sm.broadcastShardChange("unregister", clientShardID, time.Now())
 
 		// Trigger memberlist metadata update to propagate NodeMeta to other nodes
 		// Run asynchronously to avoid blocking callers
@@ -879,7 +879,9 @@ func (sm *shardManagerImpl) GetIntraProxyTLSConfig() encryption.TLSConfig {
 	return sm.intraProxyTLSConfig
 }
 
-func (sm *shardManagerImpl) broadcastShardChange(msgType string, shard history.ClusterShardID) {
+// broadcastShardChange announces a shard ownership change. For a registration, timestamp must be the time the
+// shard was registered locally: peers compare it with their own registration time to decide who owns the shard.
+func (sm *shardManagerImpl) broadcastShardChange(msgType string, shard history.ClusterShardID, timestamp time.Time) {
 	if !sm.started || sm.ml == nil || sm.memberlistConfig == nil {
 		return
 	}
@@ -888,7 +890,7 @@ func (sm *shardManagerImpl) broadcastShardChange(msgType string, shard history.C
 		Type:        msgType,
 		NodeName:    sm.GetNodeName(),
 		ClientShard: shard,
-		Timestamp:   time.Now(),
+		Timestamp:   timestamp,
 	}
 
 	data, err := json.Marshal(msg)
